@@ -16,10 +16,17 @@ RULE = ("CBOR: every length 0..300 plus 65534..65537 and 70000, truncations and 
         "parts of another payload, every single-character substitution of sampled part strings. String layer: int()/str() on "
         "hand-made and random ASCII texts incl. the 4300-digit limit, hand-made and mutated header strings (case, all ASCII "
         "white space incl. 0x1c-0x1f, extra/missing '/', 'of' variants, signs, underscores), every position of small "
-        "messages substituted (ASCII: model vs code; non-ASCII: code only).")
+        "messages substituted (ASCII: model vs code; non-ASCII: code only). Added by the mutation triage: bech32_polymod called "
+        "directly on 5-bit symbols and on wider / negative integers; a complete, correctly check-summed message under every "
+        "x-of-y header with x, y in -2..3 (plus 1of10, 10of10, 0of1, 1of99, -7of1, 2of1) through BCURSingle.parse and "
+        "BCURMulti.parse; encode() WITHOUT a chunk size on payload sizes solved so that the text length lies in (299k, 300k] or "
+        "(300k, 301k]; the exception class of _parse_bcur_helper (BCURStringFormatError) on non-integer x / y on either side and "
+        "on non-str input incl. a str subclass; non-canonical CBOR wrappers (wider prefix, trailing bytes, short read) with a "
+        "right digest and bc32 checksum; constructors handed encoded= / checksum= of the same and of other data; __repr__. "
+        "Generators build every string with the reference codecs of the module, not with the library.")
 TRUSTED = ["hashlib (sha256) — a universally quantified function in the theorems",
            "binascii base64 wrapping of BCURSingle/BCURMulti (payloads are byte strings in the model)",
-           "type checks (`type(x) is not str`, list/tuple) are evaluated on the implementation only (predicate str_types)",
+           "type checks (`type(x) is not str`, list/tuple) are evaluated on the implementation only (predicates str_types, str_types_strict)",
            "math.ceil(len / chunk) is a float division in the code and an integer ceiling in the model "
            "(equal for lengths below 2^53)"]
 ASSUMPTIONS = ["text given to the model is ASCII (str.lower/upper/strip/int() are modelled for code points below 128; non-ASCII "
@@ -378,6 +385,11 @@ def ref_parts(payload, chunk, animate=True):
     return ref_parts_y(payload, -(-len(enc) // chunk) if animate else 1)
 
 
+def ref_fields(payload, chunk):
+    """the parts of the reference chunking as field lists [4, x, y, checksum, text] (generators use this, not the library)"""
+    return [unfmt(t) for t in ref_parts(payload, chunk)]
+
+
 def _tryE(f, *a, **kw):
     try:
         return f(*a, **kw)
@@ -488,10 +500,193 @@ def p_bcur_session(pool, ops):
     return None
 
 
+# ---------------------------------------------------------------- hardening (mutation triage)
+# Everything below builds its strings with the reference codecs of this module (ref_cbor / ref_bc32 / sha256), never
+# with the functions under test.
+
+
+def ref_single(payload, use_checksum=True):
+    enc = ref_bc32(ref_cbor(payload))
+    return f"ur:bytes/{ref_chk(payload)}/{enc}" if use_checksum else f"ur:bytes/{enc}"
+
+
+def enc_len_of(n):
+    """length of the bc32 text of the CBOR wrapping of an n-byte payload"""
+    c = n + (1 if n <= 23 else 2 if n <= 255 else 3 if n <= 65535 else 5)
+    return -(-8 * c // 5) + 6
+
+
+def _exc(f, *a, **kw):
+    """(value, None) or (None, exception)"""
+    try:
+        return f(*a, **kw), None
+    except Exception as e:  # noqa
+        return None, e
+
+
+def p_polymod_ref(vals):
+    """bech32_polymod equals the reference LFSR on 5-bit symbols and, called directly, on any integers"""
+    got, e = _exc(bech32.bech32_polymod, list(vals))
+    if e is not None:
+        return f"bech32_polymod raises {type(e).__name__} on {list(vals)[:8]!r}"
+    if got != ref_polymod(vals):
+        return f"bech32_polymod differs from the reference on {list(vals)[:8]!r}"
+    return None
+
+
+def p_single_header(payload, x, y, upper):
+    """BCURSingle.parse of a COMPLETE, correctly check-summed message whose header says x-of-y: accepted exactly for
+    1of1 (and then the payload), refused for every other pair — also when only one of the two numbers is 1"""
+    s = f"ur:bytes/{x}of{y}/{ref_chk(payload)}/{ref_bc32(ref_cbor(payload))}"
+    if upper:
+        s = s.upper()
+    r, e = _exc(bcur.BCURSingle.parse, s)
+    if x == 1 and y == 1:
+        if e is not None or a2b_base64(r.text_b64) != payload:
+            return "BCURSingle.parse refuses (or garbles) a complete 1of1 message"
+        return None
+    if e is None:
+        return f"BCURSingle.parse accepts a part that says {x}of{y}"
+    return None
+
+
+def p_default_chunk(payload):
+    """encode() without a chunk size cuts at 300 characters per part (ceil(len / 300) parts of equalised length)"""
+    want = ref_parts(payload, 300)
+    for obj in (bcur.BCURMulti(text_b64=b64(payload)),):
+        for got in (obj.encode(), obj.encode(animate=True)):
+            if got != want:
+                return (f"encode() with the default chunk size gives {len(got)} part(s) for {len(ref_bc32(ref_cbor(payload)))} "
+                        f"characters, expected {len(want)} (300 per part)")
+        if obj.encode(300) != want:
+            return "encode(300) differs from the reference chunking"
+    if _parse(want) != payload:
+        return "the default-size parts do not parse to the payload"
+    return None
+
+
+def p_helper_error_class(t):
+    """_parse_bcur_helper either returns or raises the module's own BCURStringFormatError — never a bare
+    ValueError / TypeError / AttributeError from int() or a str method deep inside"""
+    t = T(t)
+    r, e = _exc(bcur._parse_bcur_helper, t)
+    if e is not None and not isinstance(e, bcur.BCURStringFormatError):
+        return f"_parse_bcur_helper({t[:60]!r}) raises {type(e).__name__} instead of BCURStringFormatError"
+    if e is None:
+        payload, checksum, x, y = r
+        if type(x) is not int or type(y) is not int or x > y:
+            return f"_parse_bcur_helper({t[:60]!r}) returns x={x!r}, y={y!r}"
+    return None
+
+
+class _Str(str):
+    pass
+
+
+def p_str_types_strict(payload):
+    """non-str (non list/tuple) input is refused with BCURStringFormatError (the explicit type checks), not by an
+    accident further down; a str SUBCLASS is not a `str` for the check either"""
+    s = ref_single(payload)
+    FE = bcur.BCURStringFormatError
+    for bad in (s.encode(), None, 5, [s], bytearray(s.encode()), _Str(s), 1.5, (s,)):
+        for f in (bcur._parse_bcur_helper, bcur.BCURSingle.parse):
+            r, e = _exc(f, bad)
+            if e is None:
+                return f"{f.__name__} accepts a {type(bad).__name__}"
+            if not isinstance(e, FE):
+                return f"{f.__name__} of a {type(bad).__name__} raises {type(e).__name__} instead of BCURStringFormatError"
+    for bad in (s, None, {0: s}, iter([s]), [s.encode()], [[s]], [None], [_Str(s)], s.encode(), {s}):
+        r, e = _exc(bcur.BCURMulti.parse, bad)
+        if e is None:
+            return f"BCURMulti.parse accepts {type(bad).__name__}"
+        if not isinstance(e, FE):
+            return f"BCURMulti.parse of {type(bad).__name__} raises {type(e).__name__} instead of BCURStringFormatError"
+    for good in ([s], (s,)):
+        r, e = _exc(_parse, good)
+        if e is not None or r != payload:
+            return f"a {type(good).__name__} holding the single complete part is not parsed to the payload"
+    return None
+
+
+def noncanon(payload, kind, extra):
+    """a CBOR byte-string wrapper that cbor_decode reads but cbor_encode would not write.
+    kind 0: next wider length prefix; 1: canonical + trailing bytes; 2: length field says `len(extra)` more bytes than
+    present (silent short read); 3: widest (0x60) prefix"""
+    n = len(payload)
+    if kind == 0:
+        if n <= 23:
+            return bytes([0x58, n]) + payload
+        if n <= 255:
+            return b"\x59" + n.to_bytes(2, "big") + payload
+        return b"\x60" + n.to_bytes(4, "big") + payload
+    if kind == 1:
+        return ref_cbor(payload) + (extra or b"\x00")
+    if kind == 2:
+        return ref_cbor(payload + (extra or b"\x00"))[:-len(extra or b"\x00")]
+    return b"\x60" + n.to_bytes(4, "big") + payload
+
+
+def noncanon_strings(cbor, y):
+    enc = ref_bc32(cbor)
+    chk = ref_bc32(hashlib.sha256(cbor).digest())
+    y = max(1, min(y, len(enc)))
+    cl = -(-len(enc) // y)
+    y = -(-len(enc) // cl)
+    return enc, chk, [f"ur:bytes/{i + 1}of{y}/{chk}/{enc[i * cl:(i + 1) * cl]}" for i in range(y)]
+
+
+def p_noncanon(payload, kind, extra, y):
+    """a non-canonical wrapper (right digest, right bc32 checksum): BCURSingle.parse compares the re-encoding with the
+    text it was given and refuses; BCURMulti.parse, when it accepts, returns the bytes that are in the wrapper"""
+    cbor = noncanon(payload, kind, extra)
+    if cbor == ref_cbor(payload):
+        return None
+    enc, chk, strings = noncanon_strings(cbor, y)
+    for s in (f"ur:bytes/{enc}", f"ur:bytes/{chk}/{enc}", f"ur:bytes/1of1/{chk}/{enc}"):
+        r, e = _exc(bcur.BCURSingle.parse, s)
+        if e is None:
+            return f"BCURSingle.parse accepts a non-canonical CBOR wrapper (kind {kind}) whose re-encoding differs from the text"
+    r, e = _exc(_parse, strings)
+    if e is None and r != payload:
+        return f"BCURMulti.parse of a non-canonical wrapper (kind {kind}) gives bytes that are not in it"
+    return None
+
+
+def p_ctor(payload, other):
+    """the constructors re-encode and compare with the `encoded` / `checksum` they are handed; __repr__"""
+    enc, chk = ref_bc32(ref_cbor(payload)), ref_chk(payload)
+    oenc, ochk = ref_bc32(ref_cbor(other)), ref_chk(other)
+    t = b64(payload)
+    for cls in (bcur.BCURSingle, bcur.BCURMulti):
+        for kw in ({}, {"encoded": enc}, {"checksum": chk}, {"encoded": enc, "checksum": chk},
+                   {"encoded": None, "checksum": None}, {"encoded": "", "checksum": ""}):
+            o, e = _exc(cls, text_b64=t, **kw)
+            if e is not None:
+                return f"{cls.__name__}(text, {sorted(kw)}) with the right values raises {type(e).__name__}"
+            if o.encoded != enc or o.enc_hash != chk or o.text_b64 != t:
+                return f"{cls.__name__} object holds a wrong encoding / digest"
+        if other != payload:
+            for kw in ({"encoded": oenc}, {"checksum": ochk}, {"encoded": enc, "checksum": ochk},
+                       {"encoded": oenc, "checksum": chk}, {"encoded": enc[:-1]}, {"checksum": chk[:-1]},
+                       {"encoded": enc.upper()}):
+                o, e = _exc(cls, text_b64=t, **kw)
+                if e is None:
+                    return f"{cls.__name__}(text, {sorted(kw)}) accepts an encoding / checksum of other data"
+    if repr(bcur.BCURSingle(text_b64=t)) != f"ur:bytes/{chk}/{enc}":
+        return "repr(BCURSingle) is not the single part with checksum"
+    for c in (None, chk):
+        if repr(bcur.BCURMulti(text_b64=t, checksum=c)) != f"bcur: {c}\n{t}\n":
+            return "repr(BCURMulti) differs"
+    return None
+
+
+
 PROPS = {"cbor_rt": p_cbor_rt, "convertbits_rt": p_convertbits_rt, "bc32_rt": p_bc32_rt, "bc32_sub": p_bc32_sub,
          "multi_rt": p_multi_rt, "multi_select": p_multi_select, "multi_tamper": p_multi_tamper,
          "part_sub": p_part_sub, "bcur_session": p_bcur_session, "part_sub_unicode": p_part_sub_unicode,
-         "str_types": p_str_types}
+         "str_types": p_str_types, "single_header": p_single_header, "default_chunk": p_default_chunk,
+         "helper_error_class": p_helper_error_class, "str_types_strict": p_str_types_strict, "noncanon": p_noncanon,
+         "ctor": p_ctor, "polymod_ref": p_polymod_ref}
 
 # ---------------------------------------------------------------- generators
 
@@ -653,13 +848,12 @@ def string_layer(ctx):
         yield ("corr", "multi_encode_str", [payload, r.choice([0, -1, -7, -enc_len, -100000]), r.randrange(2)])
         for uc in (0, 1):
             yield ("corr", "single_encode_str", [payload, uc])
-        parts = _parts(payload, chunk)
+        parts = ref_parts(payload, chunk)
         yield ("corr", "multi_parse_str", [[p.encode() for p in parts]])
         yield ("corr", "multi_parse_str", [[p.upper().encode() for p in parts]])
         yield ("corr", "multi_parse_str", [[r.choice(WS) + p + r.choice(WS) for p in parts]])
-        single = bcur.BCURSingle(text_b64=b64(payload))
-        forms = [single.encode(use_checksum=False), single.encode(use_checksum=True),
-                 f"ur:bytes/1of1/{single.enc_hash}/{single.encoded}"]
+        s_enc, s_chk = ref_bc32(ref_cbor(payload)), ref_chk(payload)
+        forms = [ref_single(payload, False), ref_single(payload, True), f"ur:bytes/1of1/{s_chk}/{s_enc}"]
         for t in forms:
             yield ("corr", "single_parse_str", [t.encode()])
             yield ("corr", "parse_helper_str", [t.encode()])
@@ -669,7 +863,7 @@ def string_layer(ctx):
                 yield ("corr", "single_parse_str", [m.encode()])
                 yield ("corr", "parse_helper_str", [m.encode()])
         # the merged forms a replaced '/' produces
-        yield ("corr", "single_parse_str", [f"ur:bytes/{single.enc_hash}{r.choice(B32)}{single.encoded}".encode()])
+        yield ("corr", "single_parse_str", [f"ur:bytes/{s_chk}{r.choice(B32)}{s_enc}".encode()])
         # one mutated string among the parts
         for _ in range(ctx.n(10, 60)):
             i = r.randrange(len(parts))
@@ -691,7 +885,7 @@ def string_layer(ctx):
         payload = ctx.rbytes(r.randrange(1, 40))
         enc_len = len(ref_bc32(ref_cbor(payload)))
         chunk = max(1, -(-enc_len // r.choice([1, 2, 3])))
-        parts = _parts(payload, chunk)
+        parts = ref_parts(payload, chunk)
         for i in sorted({0, len(parts) - 1}):
             s = parts[i]
             for pos in range(len(s)):
@@ -702,11 +896,126 @@ def string_layer(ctx):
                     bad = [(s[:pos] + c + s[pos + 1:] if k == i else p).encode() for k, p in enumerate(parts)]
                     yield ("corr", "multi_parse_str", [bad])
                 yield ("prop", "part_sub_unicode", [payload, chunk, i, pos])
-        single = bcur.BCURSingle(text_b64=b64(payload)).encode(use_checksum=True)
+        single = ref_single(payload, True)
         for pos in range(len(single)):
             for c in r.sample(B32 + "QU019/ :-_+o\t\x1c\x00", 2) + ["/", " "]:
                 if c != single[pos]:
                     yield ("corr", "single_parse_str", [(single[:pos] + c + single[pos + 1:]).encode()])
+
+
+def hardening(ctx):
+    """input classes added after the mutation triage (see mutation/C20.triage.md)"""
+    r = ctx.rng
+    # ---- polymod called directly: 5-bit symbols (its domain) and wider / negative integers (sixth bit of the top)
+    for _ in range(ctx.n(60, 1500)):
+        ctx.label("polymod/5-bit")
+        vals = [r.randrange(32) for _ in range(r.randrange(0, 90))]
+        yield ("corr", "polymod", [vals])
+        yield ("prop", "polymod_ref", [vals])
+    for vals in ([], [0], [31], [31] * 8, [0] * 40, [1 << 25], [1 << 29], [1 << 30], [1 << 30, 0], [(1 << 30) - 1, 0, 0],
+                 [1 << 31, 1], [1 << 35, 0, 0], [1 << 60, 5, 6], [32], [255, 255], [-1], [-1, 0], [-32, 3, 3], [5, -(1 << 30), 1]):
+        ctx.label("polymod/out-of-domain")
+        yield ("corr", "polymod", [vals])
+        yield ("prop", "polymod_ref", [vals])
+    for _ in range(ctx.n(40, 800)):
+        vals = [r.randrange(32) for _ in range(r.randrange(1, 12))]
+        vals[r.randrange(len(vals))] = r.choice([1, -1]) * r.randrange(1 << r.randrange(5, 45))
+        ctx.label("polymod/out-of-domain")
+        vals = vals + [r.randrange(32) for _ in range(r.randrange(0, 4))]
+        yield ("corr", "polymod", [vals])
+        yield ("prop", "polymod_ref", [vals])
+    # ---- BCURSingle.parse / BCURMulti.parse of a complete message under every small x-of-y header
+    grid = [(x, y) for x in range(-2, 4) for y in range(-2, 4)] + [(1, 10), (10, 10), (0, 1), (1, 99), (-7, 1), (2, 1)]
+    for n in [0, 1, 23, 24, 40] + [r.randrange(0, 300) for _ in range(ctx.n(2, 30))]:
+        payload = ctx.rbytes(n)
+        enc, chk = ref_bc32(ref_cbor(payload)), ref_chk(payload)
+        for (x, y) in grid:
+            ctx.label("single-header/1of1" if (x, y) == (1, 1) else "single-header/one-of-them-is-1" if 1 in (x, y)
+                      else "single-header/neither-is-1")
+            up = int(r.random() < 0.2)
+            yield ("prop", "single_header", [payload, x, y, up])
+            yield ("corr", "single_parse", [[4, x, y, chk, enc]])
+            yield ("corr", "multi_parse", [[[4, x, y, chk, enc]]])
+            yield ("corr", "single_parse_str", [f"ur:bytes/{x}of{y}/{chk}/{enc}".encode()])
+        # two complete copies / a complete message followed by a foreign second header
+        for (x1, y1, x2, y2) in [(1, 2, 2, 2), (1, 1, 2, 1), (1, 0, 2, 0), (1, 1, 1, 1), (1, 2, 2, 3), (1, 3, 2, 2), (0, 2, 1, 2)]:
+            half = len(enc) // 2
+            yield ("corr", "multi_parse", [[[4, x1, y1, chk, enc[:half]], [4, x2, y2, chk, enc[half:]]]])
+        # a first string without x-of-y (forms 2 / 3: x = y = 1, checksum None / given) followed by a numbered one
+        for form in (2, 3):
+            for (x2, y2) in [(2, 2), (2, 1), (1, 1), (2, 3)]:
+                half = len(enc) // 2
+                yield ("corr", "multi_parse", [[[form, 1, 1, chk, enc[:half]], [4, x2, y2, chk, enc[half:]]]])
+            yield ("corr", "multi_parse", [[[form, 1, 1, chk, enc], [form, 1, 1, chk, enc]]])
+    # ---- payloads of one repeated byte (leading zero bytes / first 5-bit group zero / all ones)
+    for n in (1, 2, 5, 23, 24, 64):
+        for b in (b"\x00", b"\xff", b"\x80", b"\x01"):
+            ctx.label("payload/constant-bytes")
+            yield ("prop", "bc32_rt", [b * n])
+            yield ("prop", "cbor_rt", [b * n])
+            yield ("prop", "multi_rt", [b * n, r.choice([1, 5, 300])])
+            yield ("corr", "bc32encode", [b * n])
+            yield ("corr", "bcur_encode", [b * n])
+    # ---- default chunk size: payload sizes whose text length separates 300 from 299 and from 301
+    cd = lambda a, b: -(-a // b)  # noqa: E731
+    edge = [n for n in range(0, 1600) if cd(enc_len_of(n), 300) != cd(enc_len_of(n), 299)
+            or cd(enc_len_of(n), 300) != cd(enc_len_of(n), 301)]
+    near = sorted({m for n in edge[:6] for m in (n - 1, n + 1)} - set(edge))
+    for n in (edge if ctx.tier != "quick" else edge[:14]) + near + [0, 100, 180, 181, 182, 183, 184]:
+        L = enc_len_of(n)
+        ctx.label("default-chunk/separates-299" if cd(L, 300) != cd(L, 299) else
+                  "default-chunk/separates-301" if cd(L, 300) != cd(L, 301) else "default-chunk/other")
+        payload = ctx.rbytes(n)
+        yield ("prop", "default_chunk", [payload])
+        yield ("corr", "multi_encode", [payload, 300, 1])
+        yield ("corr", "multi_encode", [payload, 299, 1])
+        yield ("corr", "multi_encode", [payload, 301, 1])
+    # ---- the error class of the header parser, the type checks
+    texts = ["ur:bytes/xof1//q", "ur:bytes/1ofx//q", "ur:bytes/xofy//q", "ur:bytes/xofx//q", "ur:bytes/of1//q", "ur:bytes/1of//q",
+             "ur:bytes/of//q", "ur:bytes/1.0of2//q", "ur:bytes/1of2.0//q", "ur:bytes/0x1of2//q", "ur:bytes/1of0x2//q",
+             "ur:bytes/ of1//q", "ur:bytes/1of //q", "ur:bytes/1_of2//q", "ur:bytes/1of_2//q", "ur:bytes/--1of2//q",
+             "ur:bytes/1of--2//q", "ur:bytes/qof2//q", "ur:bytes/2ofq//q", "ur:bytes/1e1of20//q", "ur:bytes/1of1e1//q",
+             "ur:bytes/" + "1" * 4301 + "of2//q", "ur:bytes/1of" + "1" * 4301 + "//q", "ur:bytes/xof1/" + "q" * 58 + "/q",
+             "ur:bytes/1ofx/" + "q" * 58 + "/q", "ur:bytes/1of2//q", "ur:bytes/2of1//q", "ur:bytes/3of3/" + "q" * 58 + "/qq",
+             "", "ur:bytes/", "ur:bytes/q", "ur:bytes/q/q/q/q", "ur:bytes/1of2of3//q", "ur:bytes/b", "ur:bytes/" + "q" * 57 + "/q"]
+    payload = ctx.rbytes(30)
+    whole = f"ur:bytes/1of1/{ref_chk(payload)}/{ref_bc32(ref_cbor(payload))}"
+    for bad in ("x", "", " ", "q", "1.0", "0x1", "1_", "+", "-", "1e0", "one"):
+        texts += [whole.replace("1of1", f"{bad}of1"), whole.replace("1of1", f"1of{bad}"), whole.replace("1of1", f"{bad}of{bad}")]
+    for _ in range(ctx.n(40, 600)):
+        tok = lambda: "".join(r.choice("0123456789" * 2 + "xq_+- .e") for _ in range(r.randrange(0, 4)))  # noqa: E731
+        texts.append(whole.replace("1of1", tok() + "of" + tok()))
+    for t in texts:
+        ctx.label("header/error-class")
+        yield ("prop", "helper_error_class", [t.encode()])
+        yield ("corr", "parse_helper_str", [t.encode()])
+        yield ("corr", "single_parse_str", [t.encode()])
+        yield ("corr", "multi_parse_str", [[t.encode()]])
+    for n in (0, 1, 30):
+        ctx.label("types/strict")
+        yield ("prop", "str_types_strict", [ctx.rbytes(n)])
+    # ---- non-canonical CBOR wrappers with a right digest and a right bc32 checksum
+    for n in [0, 1, 22, 23, 24, 25, 100, 255, 256, 300] + [r.randrange(0, 400) for _ in range(ctx.n(6, 100))]:
+        payload = ctx.rbytes(n)
+        for kind in range(4):
+            extra = ctx.rbytes(r.choice([1, 1, 2, 5, 300]))
+            y = r.choice([1, 1, 2, 3, 5])
+            ctx.label("noncanonical-cbor/kind%d" % kind)
+            yield ("prop", "noncanon", [payload, kind, extra, y])
+            cbor = noncanon(payload, kind, extra)
+            enc, chk, strings = noncanon_strings(cbor, y)
+            yield ("corr", "cbor_decode", [cbor])
+            yield ("corr", "bcur_decode", [enc.encode(), [chk.encode()]])
+            yield ("corr", "single_parse", [[r.choice([2, 3, 4]), 1, 1, chk, enc]])
+            yield ("corr", "multi_parse", [[unfmt(t) for t in strings]])
+            yield ("corr", "multi_parse_str", [[t.encode() for t in strings]])
+    # ---- constructors handed an encoding / a checksum, __repr__
+    for n in [0, 1, 23, 24, 100] + [r.randrange(0, 300) for _ in range(ctx.n(5, 60))]:
+        payload = ctx.rbytes(n)
+        other = r.choice([payload + b"\x00", payload[:-1], ctx.rbytes(n), payload[:-1] + bytes([payload[-1] ^ 1]) if payload else b"\x01"])
+        ctx.label("constructor/encoded-and-checksum-arguments")
+        yield ("prop", "ctor", [payload, other])
+
 
 
 def generate(ctx):
@@ -779,8 +1088,8 @@ def generate(ctx):
     for _ in range(ctx.n(60, 1500)):
         d = ctx.rbytes(r.choice([0, 1, 23, 24, 100, 255, 256, r.randrange(0, 400)]))
         yield ("corr", "bcur_encode", [d])
-        enc, chk = bcur.bcur_encode(d)
-        other = bcur.bcur_encode(d + b"x")[1]
+        enc, chk = ref_bc32(ref_cbor(d)), ref_chk(d)
+        other = ref_chk(d + b"x")
         yield ("corr", "bcur_decode", [enc.encode(), []])
         yield ("corr", "bcur_decode", [enc.encode(), [chk.encode()]])
         yield ("corr", "bcur_decode", [enc.encode(), [other.encode()]])
@@ -805,7 +1114,7 @@ def generate(ctx):
         ctx.label("multi/chunk" + ("=1" if chunk == 1 else "<len" if chunk < enc_len else ">=len"))
         yield ("corr", "multi_encode", [payload, chunk, 1])
         yield ("prop", "multi_rt", [payload, chunk])
-        parts = i_multi_encode(payload, chunk, 1)
+        parts = ref_fields(payload, chunk)
         if len(parts) <= 3000:
             yield ("corr", "multi_parse", [parts])
         cases.append((payload, chunk, len(parts)))
@@ -813,7 +1122,7 @@ def generate(ctx):
             yield ("corr", "multi_encode", [payload, chunk, 0])
             for uc in (0, 1):
                 yield ("corr", "single_encode", [payload, uc])
-                yield ("corr", "single_parse", [IMPL["single_encode"](payload, uc)])
+                yield ("corr", "single_parse", [unfmt(ref_single(payload, uc))])
     # chunk sizes: all of 1..2000 over the run (thorough), a spread in the quick tier
     payload = ctx.rbytes(700)
     for chunk in (range(1, 2001) if ctx.tier != "quick" else list(range(1, 40)) + [r.randrange(40, 2001) for _ in range(40)]):
@@ -826,13 +1135,13 @@ def generate(ctx):
             payload = ctx.rbytes(r.randrange(20, 120))
             enc_len = len(ref_bc32(ref_cbor(payload)))
             chunk = -(-enc_len // y)
-            if len(_parts(payload, chunk)) != y:
+            if len(ref_parts(payload, chunk)) != y:
                 continue
             sels = []
             for k in range(0, y + 1):
                 sels += [list(p) for p in itertools.permutations(range(y), k)]
             sels += [[0] * 2, list(range(y)) + [y - 1], list(range(y)) + [0], [0, 0] + list(range(1, y))]
-            parts = i_multi_encode(payload, chunk, 1)
+            parts = ref_fields(payload, chunk)
             for sel in sels:
                 ctx.label("select/identity" if sel == list(range(y)) else
                           "select/trailing-parts-missing" if sel == list(range(len(sel))) else
@@ -850,8 +1159,8 @@ def generate(ctx):
             val = r.choice([0, 1, 2, 3, 99, idx % 7])
             ctx.label("tamper/kind%d" % kind)
             yield ("prop", "multi_tamper", [payload, other, chunk, idx, kind, val])
-        parts = i_multi_encode(payload, chunk, 1)
-        oparts = i_multi_encode(other, chunk, 1)
+        parts = ref_fields(payload, chunk)
+        oparts = ref_fields(other, chunk)
         i = idx % len(parts)
         mixed = [list(p) for p in parts]
         mixed[i] = list(oparts[i])
@@ -877,12 +1186,14 @@ def generate(ctx):
     yield ("corr", "multi_parse", [[]])
     # every single-character substitution of sampled parts
     for (payload, chunk, y) in r.sample([c for c in cases if len(c[0]) < 400 and c[2] <= 12], ctx.n(4, 40)):
-        parts = _parts(payload, chunk)
+        parts = ref_parts(payload, chunk)
         for idx in (range(y) if ctx.tier != "quick" else r.sample(range(y), min(y, 2))):
             for pos in range(len(parts[idx])):
                 ctx.label("part-substitution/header" if pos < parts[idx].rfind("/") else "part-substitution/payload")
                 yield ("prop", "part_sub", [payload, chunk, idx, pos])
     # ---------------- the string layer (strip / split / int() / f-strings), model vs implementation on real strings
     yield from string_layer(ctx)
+    # ---------------- classes added by the mutation triage
+    yield from hardening(ctx)
     # ---------------- histories: long-lived BCUR objects, parse / codecs called repeatedly on nearly equal payloads
     yield from histories(ctx)
